@@ -186,9 +186,13 @@ class Registries(object):
         """List of (ver, cat, name, kind) differences between the snapshot and
         the current state (or `other`)."""
         cur = other if other is not None else self.take()
+        return self.diff_maps(self.snap, cur)
+
+    @staticmethod
+    def diff_maps(snap, cur):
         out = []
-        for ver in sorted(set(self.snap) | set(cur)):
-            a, b = self.snap.get(ver, {}), cur.get(ver, {})
+        for ver in sorted(set(snap) | set(cur)):
+            a, b = snap.get(ver, {}), cur.get(ver, {})
             for cat in sorted(set(a) | set(b)):
                 ma, mb = a.get(cat, {}), b.get(cat, {})
                 for name in sorted(set(ma) | set(mb)):
@@ -489,6 +493,12 @@ class SimDisk(object):
         self.vanished = []
         self.installed = False
         self._orig = {}
+        # file timestamps are a clock, and the disk owns it: every stat result under root carries simulated a/m/c-times.
+        # mtime_gran = number of mutations (create, write, remove, rename) per tick of the filesystem's timestamp clock:
+        # 1 = every change gets a new time stamp (fine-grained), N = coarse (several changes share one stamp), 0 = frozen
+        self.mtime_gran = 1
+        self.mutations = 0
+        self.mtimes = {}
 
     # -- helpers -----------------------------------------------------------
     def under(self, path):
@@ -514,6 +524,35 @@ class SimDisk(object):
             p = p.decode('utf-8')
         p = os.path.normpath(p if p.startswith('/') else os.path.join(os.getcwd(), p))
         return os.path.relpath(p, self.root)
+
+    def _norm(self, path):
+        p = os.fspath(path)
+        if isinstance(p, bytes):
+            p = p.decode('utf-8', 'surrogateescape')
+        return os.path.normpath(p if p.startswith('/') else os.path.join(os.getcwd(), p))
+
+    def touch(self, path, parent=True, itself=True):
+        """A mutation of `path` happened: advance the disk's timestamp clock and stamp the path and/or its directory."""
+        self.mutations += 1
+        tick = self.mutations // self.mtime_gran if self.mtime_gran else 0
+        p = self._norm(path)
+        if itself:
+            self.mtimes[p] = tick
+        if parent:
+            self.mtimes[os.path.dirname(p)] = tick
+
+    def fake_times(self, path, st):
+        """The real stat result with the disk's simulated time stamps."""
+        tick = self.mtimes.get(self._norm(path), 0)
+        ns = 1600000000 * 10 ** 9 + tick * 2 * 10 ** 9
+        seq, extra = st.__reduce__()[1]
+        seq = list(seq)
+        seq[7] = seq[8] = seq[9] = ns // 10 ** 9
+        extra = dict(extra)
+        for k in ('st_atime', 'st_mtime', 'st_ctime'):
+            extra[k] = ns / 1e9
+            extra[k + '_ns'] = ns
+        return os.stat_result(seq, extra)
 
     def begin_op(self, ls_key=0, fault=None):
         self.ls_key = ls_key
@@ -611,6 +650,7 @@ class SimDisk(object):
                 f = disk._hit('stat')
                 if f:
                     disk._raise(f, 'stat', path)
+                return disk.fake_times(path, o['stat'](path, *a, **kw))
             return o['stat'](path, *a, **kw)
 
         def lstat(path, *a, **kw):
@@ -618,6 +658,7 @@ class SimDisk(object):
                 f = disk._hit('stat')
                 if f:
                     disk._raise(f, 'stat', path)
+                return disk.fake_times(path, o['lstat'](path, *a, **kw))
             return o['lstat'](path, *a, **kw)
 
         def mkdir(path, *a, **kw):
@@ -625,18 +666,23 @@ class SimDisk(object):
                 f = disk._hit('mkdir')
                 if f:
                     disk._raise(f, 'mkdir', path)
+                r = o['mkdir'](path, *a, **kw)
+                disk.touch(path)
+                return r
             return o['mkdir'](path, *a, **kw)
 
         def remove(path, *a, **kw):
             if disk.under(path):
                 disk._hit('remove')
                 disk.files.pop(disk.rel(path), None)
+                disk.touch(path, itself=False)
             return o['remove'](path, *a, **kw)
 
         def unlink(path, *a, **kw):
             if disk.under(path):
                 disk._hit('remove')
                 disk.files.pop(disk.rel(path), None)
+                disk.touch(path, itself=False)
             return o['unlink'](path, *a, **kw)
 
         def _mv(name):
@@ -644,6 +690,8 @@ class SimDisk(object):
                 r = o[name](src, dst, *a, **kw)
                 if disk.under(src) and disk.under(dst):
                     disk._hit('rename')
+                    disk.touch(src, itself=False)
+                    disk.touch(dst)
                     st = disk.files.pop(disk.rel(src), None)
                     if st is not None:
                         disk.files[disk.rel(dst)] = st
@@ -682,7 +730,13 @@ class SimDisk(object):
                 # unusual mode: pass through, ledger says "unknown"
                 disk.files[disk.rel(file)] = ('unknown', -1)
                 return o['open'](file, mode, buffering, encoding, errors, newline, closefd, opener)
+            try:
+                o['lstat'](os.fspath(file))
+                existed = True
+            except OSError:
+                existed = False
             fd = os.open(os.fspath(file), os.O_WRONLY | os.O_CREAT | os.O_TRUNC, 0o666)
+            disk.touch(file, parent=not existed)
             rel = disk.rel(file)
             disk.files[rel] = ('open', 0)
             disk.write_seq.append(rel)
@@ -746,9 +800,16 @@ class SimDisk(object):
         op = self._orig.get('open', builtins.open)
         p = os.path.join(self.root, rel)
         os.makedirs(os.path.dirname(p), exist_ok=True)
+        try:
+            self._orig.get('lstat', os.lstat)(p)
+            existed = True
+        except OSError:
+            existed = False
         with op(p, 'wb') as fh:
             fh.write(data)
+        self.touch(p, parent=not existed)
 
     def raw_remove(self, rel):
         self._orig.get('remove', os.remove)(os.path.join(self.root, rel))
         self.files.pop(rel, None)
+        self.touch(os.path.join(self.root, rel), itself=False)
